@@ -2,7 +2,7 @@
 From Coq Require Import List Arith NArith Lia Bool ZifyN ZifyNat ZifyBool.
 From FS Require Import Sx Model.Path Model.Fs Model.RootPath Model.CopyFs Model.CopyFsSpec
   Proofs.Lex Proofs.PathP Proofs.FsP Proofs.RootPathStrP Proofs.FsCopyFrameP Proofs.FsCopyInvP
-  Proofs.FsCopySafeP Proofs.FsCopyLinksP Proofs.FsCopySysP Proofs.CopyFsP Proofs.CopyRecP Proofs.CopyFsTopP
+  Proofs.FsCopySafeP Proofs.FsCopyLinksP Proofs.FsCopySysP Proofs.CopyFsP Proofs.CopyRecP Proofs.CopyFsRec2P Proofs.CopyFsTopP
   Proofs.CopyFsTop2P.
 From FS Require Proofs.RootPathP.
 Import ListNotations.
@@ -145,7 +145,7 @@ Section Top3.
       pose proof (k_meta c f0 dr dcs _ _ M1) as K1.
       assert (C1 : Ctx f1) by apply M1.
       destruct r1; cbn [fst]; try (split; auto; fail).
-      set (s1 := {| s_fs := f1; s_links := s_links s; s_reads := s_reads s |}).
+      set (s1 := {| s_fs := f1; s_links := s_links s; s_parents := s_parents s; s_reads := s_reads s |}).
       destruct (IH s1 C1) as (C2 & K2).
       { eapply Forall_impl; [|exact Hrest]. intros p. apply created_ok_keeps. exact K1. }
       split; auto. eapply keeps_new_trans; eauto.
@@ -179,12 +179,12 @@ Section Top3.
     copy_root_path c f src_root src follow = inl sf -> sf = src_root.
   Proof. intros E H. unfold copy_root_path in H. rewrite E in H. simpl in H. inversion H; auto. Qed.
 
-  Lemma copy_sources_spec fuel o dst : forall srcs batches s s' res batches',
-    Ctx (s_fs s) -> lok s -> batches_ok (s_fs s) batches -> Forall (fun src => has_nul src = false) srcs ->
-    copy_sources fuel c o src_root (render dcs) dst srcs batches s = (s', res, batches') ->
+  Lemma copy_sources_spec fuel o sl dst : forall srcs batches s s' res batches',
+    Ctx (s_fs s) -> lok s -> s_parents s = [] -> batches_ok (s_fs s) batches -> Forall (fun src => has_nul src = false) srcs ->
+    copy_sources fuel c o sl src_root (render dcs) dst srcs batches s = (s', res, batches') ->
     Ctx (s_fs s') /\ batches_ok (s_fs s') batches'.
   Proof.
-    induction srcs as [|src srcs IH]; intros batches s s' res batches' C L Hb Hs H.
+    induction srcs as [|src srcs IH]; intros batches s s' res batches' C L Pa Hb Hs H.
     - cbn [copy_sources] in H. inversion H; subst. auto.
     - cbn [copy_sources] in H. inversion Hs as [|? ? Hsn Hrest]; subst.
       (* the step: two RootPath calls (reads only), then prepareTargetDir *)
@@ -206,31 +206,39 @@ Section Top3.
       cbn [ret fst snd] in H.
       assert (C1 : Ctx (s_fs s1)) by apply S1.
       assert (L1 : lok s1) by (apply S1; auto).
+      assert (Pa1 : s_parents s1 = []) by (destruct S1 as (_ & _ & _ & _ & Q); rewrite Q; exact Pa).
       assert (Hb1 : batches_ok (s_fs s1) (created :: batches)).
       { constructor; auto. eapply batches_ok_keeps; [eapply stays_keeps; exact S1|exact Hb]. }
       (* copier.copy *)
-      assert (Hcopy : forall s2 r2, copy_rec fuel c o sf d1 false s1 = (s2, r2) -> stays_ok dr s1 s2 r2).
+      assert (Hcopy : forall s2 r2, copy_rec fuel c o sl sf [] d1 false [] [] s1 = (s2, r2) ->
+                stays_ok dr s1 s2 r2 /\ (ok_res r2 -> s_parents s2 = [])).
       { intros s2 r2 E2. destruct Td as [-> Hdir|cs1 x dd -> H1 H2 H3 H4 Hc].
-        - destruct fuel as [|k]; [cbn [copy_rec] in E2; unfold fail in E2; inversion E2; subst; apply stays_stays_ok, stays_refl; auto|].
-          eapply copy_rec_root_spec; eauto.
-        - assert (T : Tgt (s_fs s1) cs1 dd x) by (constructor; auto).
-          eapply stays_ok_below; [exact Hc|]. eapply copy_rec_spec; eauto. }
-      destruct (copy_rec fuel c o sf d1 false s1) as [s2 [[]|e]] eqn:E2.
-      + destruct (Hcopy s2 _ eq_refl) as (C2 & _ & L2 & K2).
+        - destruct fuel as [|k].
+          + cbn [copy_rec] in E2. unfold fail in E2. inversion E2; subst.
+            split; [apply stays_stays_ok, stays_refl; auto|intros _; exact Pa1].
+          + eapply copy_rec_root_spec; eauto.
+        - change (FsCopySafeP.tpath dcs cs1 x) with (render (dcs ++ cs1 ++ [] ++ [x])) in E2.
+          destruct (copy_rec_spec c f0 dr dcs fuel o sl sf [] cs1 dd [] x false [] [] s1 s2 r2 C1 Hc) as (S2 & P2); auto.
+          { rewrite Pa1. reflexivity. }
+          split; [eapply stays_ok_below; [exact Hc|exact S2]|].
+          intros Hr. destruct (P2 Hr) as [Eq|[Eq _]]; rewrite Eq, Pa1; reflexivity. }
+      destruct (copy_rec fuel c o sl sf [] d1 false [] [] s1) as [s2 [[]|e]] eqn:E2.
+      + destruct (Hcopy s2 _ eq_refl) as ((C2 & _ & L2 & K2) & P2).
         eapply (IH (created :: batches) s2); eauto.
         * apply L2; auto. exists tt. reflexivity.
+        * apply P2. exists tt. reflexivity.
         * eapply batches_ok_keeps; eauto.
-      + destruct (Hcopy s2 _ eq_refl) as (C2 & _ & _ & K2). inversion H; subst.
+      + destruct (Hcopy s2 _ eq_refl) as ((C2 & _ & _ & K2) & _). inversion H; subst.
         split; auto. eapply batches_ok_keeps; eauto.
   Qed.
 
   (* ---- Copy ---- *)
-  Lemma copy_top_spec fuel o src dst matches s s' res :
-    Ctx (s_fs s) -> lok s -> has_nul src = false ->
+  Lemma copy_top_spec fuel o osl src dst matches s s' res :
+    Ctx (s_fs s) -> lok s -> s_parents s = [] -> has_nul src = false ->
     (forall l, matches = Some l -> Forall (fun m => has_nul m = false) l) ->
-    copy_top fuel c o src_root src (render dcs) dst matches s = (s', res) -> Ctx (s_fs s').
+    copy_top fuel c o osl src_root src (render dcs) dst matches s = (s', res) -> Ctx (s_fs s').
   Proof.
-    intros C L Hsn Hm H. unfold copy_top in H.
+    intros C L Pa Hsn Hm H. unfold copy_top in H.
     set (ensure := match split_path dst with (d, fl) => if nonempty fl && negb (bytes_eqb fl s_dot) && negb (bytes_eqb fl s_dotdot) then d else dst end) in H.
     (* the first MkdirAll *)
     assert (Hpre : forall s1 r1,
@@ -238,36 +246,40 @@ Section Top3.
                  f1 <~ get_fs ;; p <~ lift_rp (root_path c f1 (render dcs) ensure) ;;
                  created <~ mkdir_all fuel c o p ;; ret [created]
                else ret []) s = (s1, r1) ->
-              Ctx (s_fs s1) /\ (lok s -> lok s1) /\ (forall bs, r1 = inl bs -> batches_ok (s_fs s1) bs)).
+              Ctx (s_fs s1) /\ (lok s -> lok s1) /\ s_parents s1 = s_parents s /\ (forall bs, r1 = inl bs -> batches_ok (s_fs s1) bs)).
     { intros s1 r1 E. destruct (nonempty ensure).
       - rewrite bind_run in E. unfold get_fs at 1 in E.
         destruct (root_path c (s_fs s) (render dcs) ensure) as [p|e] eqn:Ep;
-          [|cbn [lift_rp fail] in E; inversion E; subst; split; [exact C|split; [auto|discriminate]]].
+          [|cbn [lift_rp fail] in E; inversion E; subst; split; [exact C|split; [auto|split; [reflexivity|discriminate]]]].
         cbn [lift_rp] in E. rewrite bind_run in E. cbn [ret] in E. rewrite bind_run in E.
         destruct (root_path_dst (s_fs s) _ _ C Ep) as (cs & -> & Hcs & Hnul & Hlf).
         destruct (mkdir_all fuel c o (render (dcs ++ cs)) s) as [s2 [created|e]] eqn:Em.
         + destruct (mkdir_all_spec c f0 dr dcs fuel o cs s s2 _ C Hcs Hnul Hlf Em) as (S2 & _ & P2).
-          cbn [ret] in E. inversion E; subst. split; [apply S2|]. split; [apply S2|].
+          cbn [ret] in E. inversion E; subst. split; [apply S2|]. split; [apply S2|]. split; [apply S2|].
           intros bs Hbs. inversion Hbs; subst. constructor; [apply (P2 created eq_refl)|constructor].
         + destruct (mkdir_all_spec c f0 dr dcs fuel o cs s s2 _ C Hcs Hnul Hlf Em) as (S2 & _ & _).
-          inversion E; subst. split; [apply S2|]. split; [apply S2|]. discriminate.
-      - cbn [ret] in E. inversion E; subst. split; [exact C|split; [auto|]]. intros bs Hbs. inversion Hbs; subst. constructor. }
+          inversion E; subst. split; [apply S2|]. split; [apply S2|]. split; [apply S2|]. discriminate.
+      - cbn [ret] in E. inversion E; subst. split; [exact C|split; [auto|split; [reflexivity|]]]. intros bs Hbs. inversion Hbs; subst. constructor. }
     destruct ((if nonempty ensure then
                  f1 <~ get_fs ;; p <~ lift_rp (root_path c f1 (render dcs) ensure) ;;
                  created <~ mkdir_all fuel c o p ;; ret [created]
                else ret []) s) as [s1 [batches0|e]] eqn:Epre.
     2:{ destruct (Hpre s1 _ eq_refl) as (Cx & _). inversion H; subst. exact Cx. }
-    destruct (Hpre s1 _ eq_refl) as (C1 & L1 & B1). specialize (B1 batches0 eq_refl). specialize (L1 L).
-    assert (Hloop : forall srcs, Forall (fun m => has_nul m = false) srcs -> forall s2 res2 bs2,
-              copy_sources fuel c o src_root (render dcs) dst srcs batches0 s1 = (s2, res2, bs2) ->
+    destruct (Hpre s1 _ eq_refl) as (C1 & L1 & Pa1 & B1). specialize (B1 batches0 eq_refl). specialize (L1 L).
+    rewrite Pa in Pa1.
+    assert (Hloop : forall sl srcs, Forall (fun m => has_nul m = false) srcs -> forall s2 res2 bs2,
+              copy_sources fuel c o sl src_root (render dcs) dst srcs batches0 s1 = (s2, res2, bs2) ->
               Ctx (s_fs (fst (run_fixes c (render dcs) (o_utime o) bs2 s2)))).
-    { intros srcs Hs s2 res2 bs2 E. destruct (copy_sources_spec fuel o dst srcs batches0 s1 s2 res2 bs2 C1 L1 B1 Hs E) as (C2 & B2).
+    { intros sl srcs Hs s2 res2 bs2 E.
+      destruct (copy_sources_spec fuel o sl dst srcs batches0 s1 s2 res2 bs2 C1 L1 Pa1 B1 Hs E) as (C2 & B2).
       apply run_fixes_spec; auto. }
+    destruct osl as [sl|].
+    2:{ (* invalid patterns *) destruct matches as [[|m ms]|]; inversion H; subst; apply run_fixes_spec; auto. }
     destruct matches as [[|m ms]|].
     - (* no match *) inversion H; subst. apply run_fixes_spec; auto.
-    - destruct (copy_sources fuel c o src_root (render dcs) dst (m :: ms) batches0 s1) as [[s2 res2] bs2] eqn:E2.
-      inversion H; subst. eapply (Hloop (m :: ms)); [apply Hm; reflexivity|exact E2].
-    - destruct (copy_sources fuel c o src_root (render dcs) dst [src] batches0 s1) as [[s2 res2] bs2] eqn:E2.
-      inversion H; subst. eapply (Hloop [src]); [constructor; auto|exact E2].
+    - destruct (copy_sources fuel c o sl src_root (render dcs) dst (m :: ms) batches0 s1) as [[s2 res2] bs2] eqn:E2.
+      inversion H; subst. eapply (Hloop sl (m :: ms)); [apply Hm; reflexivity|exact E2].
+    - destruct (copy_sources fuel c o sl src_root (render dcs) dst [src] batches0 s1) as [[s2 res2] bs2] eqn:E2.
+      inversion H; subst. eapply (Hloop sl [src]); [constructor; auto|exact E2].
   Qed.
 End Top3.
